@@ -55,6 +55,13 @@ pub fn alphabet(first_ttl: u8, h: usize) -> Vec<Shape> {
     // shorter / longer rounds
     shapes.push(Shape { first_ttl, outs: vec![Out::C(5 * MS, 1, None, None)], largest_ttl: None });
     shapes.push(Shape { first_ttl, outs: vec![Out::A, Out::A, Out::A, Out::C(7 * MS, 1, None, None)], largest_ttl: None });
+    // UDP probes carry the expected and the quoted checksum (last-probe details: NAT status): a
+    // rewriting device at hop 2, a silent hop behind it; a clean path with a silent hop; a device
+    // that leaves the checksum at zero
+    let k = |e: u16, a: u16| Out::C(2 * MS, 1, None, Some((e, a)));
+    shapes.push(Shape { first_ttl, outs: vec![k(1111, 1111), k(1111, 2222), Out::A, k(1111, 2222), k(1111, 2222)], largest_ttl: None });
+    shapes.push(Shape { first_ttl, outs: vec![k(1111, 1111), Out::A, k(1111, 1111)], largest_ttl: None });
+    shapes.push(Shape { first_ttl, outs: vec![k(1111, 1111), k(1111, 0), k(1111, 0), k(1111, 0)], largest_ttl: None });
     // carried target distance: published with path length 3 although nothing / only hop 1 answered
     shapes.push(Shape { first_ttl, outs: vec![Out::A, Out::A, Out::A], largest_ttl: Some(first_ttl + 2) });
     shapes.push(Shape { first_ttl, outs: vec![Out::C(3 * MS, 1, None, None), Out::A, Out::A], largest_ttl: Some(first_ttl + 2) });
@@ -415,7 +422,7 @@ pub fn run(args: &Args) -> i32 {
     rep.set("long_history_oracle_evaluations", json!(long_evals));
     rep.set("real_strategy_rounds_fed_to_oracle", json!(real_rounds));
     rep.set("reference_model_fixture_comparisons", json!(fixture_cmps));
-    rep.set("rule", json!(format!("state = real trippy_core::State, transition = State::update_from_round on a synthetic round; alphabet: 2 hops x 7 outcomes (Complete with rtt 0/1ms/3ms/1.5s, 2 addresses, tos; Awaited; Failed) + re-issue/short/long fillers = 54 shapes (3 hops: 348), largest_ttl by the strategy's contract; ALL histories to depth {depth} for first_ttl {{1,2,250}} x max_samples {{0,1,2,256}}, de-duplicated on (depth, all getter results); oracle after EVERY round = independent recomputation from the list of rounds (default flow, and every registered flow that was given every round; the sample limit for every hop of every flow) (validated against the repository's 9 scenario files: {fixture_cmps} expected values reproduced) + the listed inequalities. Long histories: order-3 de Bruijn sequences over 12 shapes, {long_n} rounds, checked every 50. Real rounds: 14 cells x 5 topologies x 6 rounds from the real strategy")));
+    rep.set("rule", json!(format!("state = real trippy_core::State, transition = State::update_from_round on a synthetic round; alphabet: 2 hops x 7 outcomes (Complete with rtt 0/1ms/3ms/1.5s, 2 addresses, tos; Awaited; Failed) + re-issue/short/long fillers + 3 shapes with UDP checksums (NAT status) = 57 shapes (3 hops: 351), largest_ttl by the strategy's contract; ALL histories to depth {depth} for first_ttl {{1,2,250}} x max_samples {{0,1,2,256}}, de-duplicated on (depth, all getter results); oracle after EVERY round = independent recomputation from the list of rounds (default flow, and every registered flow that was given every round; the sample limit for every hop of every flow) (validated against the repository's 9 scenario files: {fixture_cmps} expected values reproduced) + the listed inequalities. Long histories: order-3 de Bruijn sequences over 12 shapes, {long_n} rounds, checked every 50. Real rounds: 14 cells x 5 topologies x 6 rounds from the real strategy")));
     for s in samples {
         rep.sample(s);
     }
